@@ -5,3 +5,4 @@ pub mod bank;
 #[cfg(feature = "builder")]
 pub mod builder;
 pub mod tree;
+pub mod routing;
